@@ -5,6 +5,7 @@ import BbRe.Lemmas.FairExamples
 import BbRe.Lemmas.FairReal
 import BbRe.Lemmas.FairDynCache
 import BbRe.Lemmas.FairDynParked
+import BbRe.Lemmas.FairDynKids
 /-!
 # C04 — the scheduler hands work out in the documented fair order
 
@@ -365,6 +366,8 @@ theorem heaps_stay_ordered (u : Update) (t : Inv) (h : HeapTree t) (he : u.enabl
   | decrement path now last => exact (rekey_spec _ (keyOnly_decr now last) path t h).1
   | park path w => exact (frame_spec _ _ (frame_park w) path t h).1
   | unpark path idx => exact (frame_spec _ _ (frame_unpark idx) path t h).1
+  | create path k now => exact (heap_store_walk _ (heap_createLeaf k now) path t h).1
+  | removeIfEmpty path k => exact (heap_store_walk _ (heap_removeLeaf k) path t h).1
 
 /-- The same for *any* change of the keys `executingWorkers`, `lastOperationStarted`,
 `lastOperationCompletion` along a path that is followed, level by level, by the two
@@ -387,6 +390,8 @@ theorem parked_children_stay_listed (u : Update) (t : Inv) (h : ParkedTree t) (h
   | unpark path idx =>
     obtain ⟨n, hn, hidx⟩ := he
     exact (unpark_spec idx path t n h hn (by intro h0; rw [h0] at hidx; simp at hidx)).1
+  | create path k now => exact (parked_store_walk _ (parked_createLeaf k now) path t h).1
+  | removeIfEmpty path k => exact (parked_store_walk _ (parked_removeLeaf k) path t h).1
 
 /-- … which is what the hand-off theorems assume. -/
 theorem parkedTree_handoff_hypotheses (t : Inv) (h : ParkedTree t) : ParkedListed t ∧ ParkedSound t :=
@@ -408,6 +413,8 @@ theorem cached_priority (u : Update) (t : Inv) (h : HeapTree t) (hc : CacheTree 
   | decrement path now last => exact cache_rekey _ (keyOnly_decr now last) path t h hc
   | park path w => exact cache_park w path t h hc
   | unpark path idx => exact cache_unpark idx path t h hc
+  | create path k now => exact (cache_store_walk _ (cache_createLeaf k now) path t h hc).1
+  | removeIfEmpty path k => exact (cache_store_walk _ (cache_removeLeaf k) path t h hc).1
 
 /-- `cached_priority`, the two exact cases spelled out. -/
 theorem cached_priority_exact_cases (c : Inv) (h : cacheNode c) :
@@ -466,6 +473,38 @@ theorem handoff_reachable (us : List Update) (t : Inv) (h : ParkedTree t) (he : 
     ∃ p q, p ∈ invs ∧ Parked (applyAll us t) q w ∧
       ∀ p' q' w', p' ∈ invs → Parked (applyAll us t) q' w' → dist p q ≤ dist p' q' :=
   direct_handoff_prefers_related _ invs (parkedListed_of_tree _ (parked_children_stay_listed_all us t h he)) hv w hw
+
+/-- The root invocation of a size class queue that has just been created. -/
+def emptyRoot : Inv := emptyInv 0 0
+
+/-- From the empty queue: whatever sequence of `getOrCreateInvocation`, `enqueue`,
+`removeQueuedFromInvocation`, executing-count changes, parking, `dequeue` and `removeIfEmpty` steps
+built the tree, the operation `assignNextQueuedTask` hands out is admissible, … -/
+theorem pick_refines_spec_from_empty (us : List Update) (w : WView) (he : enabledAll us emptyRoot) (r : Op × Nat)
+    (hp : pickFromQueue (applyAll us emptyRoot) w = some r) : r ∈ specPick (applyAll us emptyRoot) w :=
+  pick_refines_spec_reachable us emptyRoot w (heapTree_emptyInv 0 0) he r hp
+
+/-- … every cache is within `cached_priority`'s bounds, and `idleSynchronizingWorkersChildren`
+lists exactly the children with parked workers below them. -/
+theorem invariants_from_empty (us : List Update) (he : enabledAll us emptyRoot) :
+    HeapTree (applyAll us emptyRoot) ∧ CacheTree (applyAll us emptyRoot) ∧ ParkedTree (applyAll us emptyRoot) := by
+  have key : ∀ (us : List Update) (t : Inv), HeapTree t → CacheTree t → ParkedTree t → enabledAll us t →
+      HeapTree (applyAll us t) ∧ CacheTree (applyAll us t) ∧ ParkedTree (applyAll us t) := by
+    intro us
+    induction us with
+    | nil => intro t h1 h2 h3 _; exact ⟨h1, h2, h3⟩
+    | cons u us ih =>
+      intro t h1 h2 h3 he
+      exact ih (u.apply t) (heaps_stay_ordered u t h1 he.1) (cached_priority u t h1 h2 he.1)
+        (parked_children_stay_listed u t h3 he.1) he.2
+  exact key us emptyRoot (heapTree_emptyInv 0 0) (cacheTree_emptyInv 0 0) (parkedTree_emptyInv 0 0) he
+
+-- non-vacuity: a tree built from the empty root
+example : (applyAll [.create [] 1 5, .create [1] 3 5, .create [1] 2 6, .enqueue [1, 3] ⟨1, 0, 10, 5⟩,
+      .enqueue [1, 2] ⟨2, -7, 10, 6⟩, .increment [1, 2] 9 (fun _ => true), .removeQueued [1, 2] 0,
+      .removeIfEmpty [1] 2, .park [1, 3] 41] emptyRoot).wf = true := by decide
+example : pickFromQueue (applyAll [.create [] 1 5, .create [1] 3 5, .create [1] 2 6, .enqueue [1, 3] ⟨1, 0, 10, 5⟩,
+      .enqueue [1, 2] ⟨2, -7, 10, 6⟩] emptyRoot) ⟨[], [], [], 20⟩ = some (⟨2, -7, 10, 6⟩, 0) := by decide
 
 -- non-vacuity: the updates on a concrete tree (two queued children under `1`; enqueue a high
 -- priority operation into `[1,3]`, start it, park a worker)
